@@ -102,6 +102,32 @@ def strategy(tier):
     return st.one_of(_forms(), _forms(), _limit(), _deph(), _deph())
 
 
+def grid(tier):
+    """Deterministic operator-form / tensor-form comparisons on one fixed trimer and one fixed Lindblad model: every
+    combination of time dependence, coarser output axis, refinement and pure dephasing at every seed."""
+    spec = {"E": [10000, 10180, 10350], "J": [[0, 90, 30], [90, 0, -130], [30, -130, 0]],
+            "d": [[0.0, 0.0, 0.0]] * 3, "T": 200,
+            "bath": [{"ftype": "OverdampedBrownian", "reorg": 40 + 10 * i, "cortime": 40 + 10 * i, "matsubara": 10}
+                     for i in range(3)],
+            "time": [0.0, 120, 1.0]}
+    dim = 4
+    A = [[[(3 * i + j) % 5 - 2, (i + 2 * j) % 3 - 1] for j in range(dim)] for i in range(dim)]
+    rho = [[[1, 0]], [[2, 1]], [[1, -1]], [[0, 2]]]
+    other = [[((i + 1) * (j + 2)) % 7 - 3 if i != j else i for j in range(dim)] for i in range(dim)]
+    other = [[other[min(i, j)][max(i, j)] for j in range(dim)] for i in range(dim)]
+    common = {"A": A, "rho": rho, "other": other, "share_rho": False, "apply_real_inplace": False}
+    for pd in (None, "Lorentzian", "Gaussian"):
+        for td, m, nref in ((False, 1, 1), (False, 2, 2), (False, 4, 2), (False, 4, 4), (True, 1, 1), (True, 2, 2),
+                            (True, 4, 1)):
+            yield dict(common, kind="forms", which="redfield", spec=spec, td=td, m=m, nref=nref, pd=pd)
+        H = [[0.0, 0.0, 0.0, 0.0], [0.0, 0.31, 0.04, 0.0], [0.0, 0.04, 0.33, -0.05], [0.0, 0.0, -0.05, 0.36]]
+        ops = [{"proj": [1, 2]}, {"dense": [[0.0, 0.5, 0.0, 0.0], [0.5, 0.0, 1.0, 0.0], [0.0, 1.0, -0.5, 0.5],
+                                            [0.0, 0.0, 0.5, 1.0]]}]
+        for nref in (1, 2):
+            yield dict(common, kind="forms", which="lindblad", H=H, ops=ops, rates=[20, 7], td=False, m=1, nref=nref,
+                       pd=pd)
+
+
 def check_case(case, ctx):
     return {"forms": _check_forms, "limit": _check_limit, "dephasing": _check_deph}[case["kind"]](case, ctx)
 
